@@ -26,6 +26,31 @@ def field_stores(f, var):
     return out
 
 
+def mirror_map(f):
+    """{local: `self.attr` expression} for a local assigned exactly once whose very next statement stores it into an attribute of
+    self (`requested_id = ...; self._module_id = requested_id`): from there on the local is a name for that attribute's value
+    (until the attribute is stored again - callers use it for facts established before the next store)."""
+    out = {}
+    vals = {}
+    counts = {}
+    for n in walk_local(f.node):
+        if isinstance(n, ast.Assign) and len(n.targets) == 1 and isinstance(n.targets[0], ast.Name):
+            counts[n.targets[0].id] = counts.get(n.targets[0].id, 0) + 1
+            vals[n.targets[0].id] = n.value
+        elif isinstance(n, (ast.AugAssign, ast.AnnAssign, ast.For, ast.NamedExpr)):
+            t = n.target
+            for x in ast.walk(t):
+                if isinstance(x, ast.Name):
+                    counts[x.id] = counts.get(x.id, 0) + 2
+    for blk in [b for n in ast.walk(f.node) for fld in ("body", "orelse", "finalbody") for b in [getattr(n, fld, None)] if isinstance(b, list)]:
+        for a, b in zip(blk, blk[1:]):
+            if isinstance(a, ast.Assign) and len(a.targets) == 1 and isinstance(a.targets[0], ast.Name) and counts.get(a.targets[0].id) == 1 \
+                    and isinstance(b, ast.Assign) and len(b.targets) == 1 and isinstance(b.targets[0], ast.Attribute) and path_of(b.targets[0].value) == "self" \
+                    and isinstance(b.value, ast.Name) and b.value.id == a.targets[0].id:
+                out[a.targets[0].id] = (guards.parse(f"self.{b.targets[0].attr}"), a.value, b)
+    return out
+
+
 def names_in(e):
     return {path_of(x) for x in ast.walk(e) if isinstance(x, (ast.Name, ast.Attribute)) and path_of(x)} - {"int", "bool", "os", "os.getpid"}
 
@@ -74,10 +99,12 @@ def run(prog: Program, chk: Check):
         raise AnalysisError("anchor vanished: MDF_CONNECT_V2 / MDF_CONNECT locals in _connect_helper")
     want_v2 = {"logger_status": {"logger_status"}, "daemon_status": {"daemon_status"}, "allow_multiple": {"allow_multiple"},
                "mod_id": {"self.module_id", "self._module_id"}, "name": {"self.name", "self._name"}}
+    mirrors = mirror_map(ch)
+    msub = {k: v[0] for k, v in mirrors.items()}
     for var, want in ((v2[0], want_v2), (v1[0], {k: want_v2[k] for k in ("logger_status", "daemon_status")})):
         st = field_stores(ch, var)
         for fld, srcs in want.items():
-            vals = st.get(fld, [])
+            vals = [guards.subst(v_, msub) for v_ in st.get(fld, [])]
             # a field copied from the other frame's same field (`connect_v1.x = connect_v2.x`) takes that field's source
             if len(vals) == 1 and isinstance(vals[0], ast.Attribute) and path_of(vals[0].value) in (v2[0], v1[0]) and path_of(vals[0].value) != var:
                 other = field_stores(ch, path_of(vals[0].value)).get(vals[0].attr, [])
@@ -228,12 +255,25 @@ def run(prog: Program, chk: Check):
         raise AnalysisError("anchor vanished: assign_module_id returns nothing")
     cur = None
     for n in walk_local(am.node):
-        if isinstance(n, ast.Assign) and isinstance(n.value, (ast.ListComp, ast.SetComp)) and len(n.value.generators) == 1 \
-                and norm(n.value.generators[0].iter) == "self.modules.values()" and not n.value.generators[0].ifs \
-                and isinstance(n.value.elt, ast.Attribute) and n.value.elt.attr == "mod_id":
-            cur = path_of(n.targets[0])
+        if not isinstance(n, (ast.Assign, ast.AnnAssign)) or n.value is None:
+            continue
+        comp = n.value
+        # list / set comprehension, or set(...) / frozenset(...) / list(...) / tuple(...) over a generator or comprehension
+        if isinstance(comp, ast.Call) and isinstance(comp.func, ast.Name) and comp.func.id in ("set", "frozenset", "list", "tuple", "sorted") and len(comp.args) == 1 and not comp.keywords:
+            comp = comp.args[0]
+        if isinstance(comp, (ast.ListComp, ast.SetComp, ast.GeneratorExp)) and len(comp.generators) == 1 \
+                and norm(comp.generators[0].iter) == "self.modules.values()" and not comp.generators[0].ifs \
+                and isinstance(comp.elt, ast.Attribute) and comp.elt.attr == "mod_id" and path_of(comp.elt.value) == path_of(comp.generators[0].target):
+            cur = path_of(n.targets[0] if isinstance(n, ast.Assign) else n.target)
     G.decide(cur is not None, fkey(am, "current-ids-from-all-modules"), where(am), f"`{cur}` collects mod_id of every module in self.modules",
              "assign_module_id does not collect the ids of all modules in self.modules (unfiltered)")
+    # a local read once from the cursor (`offset = self.next_dynamic_mod_id_offset`) stands for a value of the cursor
+    CUR = "self.next_dynamic_mod_id_offset"
+    cur_locals = {}
+    for d in walk_local(am.node):
+        if isinstance(d, ast.Assign) and len(d.targets) == 1 and isinstance(d.targets[0], ast.Name):
+            cur_locals.setdefault(d.targets[0].id, []).append(d.value)
+    cur_sub = {k: guards.parse(CUR) for k, vs in cur_locals.items() if len(vs) == 1 and norm(vs[0]) == CUR}
     for n in rets:
         v = path_of(n.ast.value)
         okr = cur is not None and v is not None and not guards.any_path_implies(ags.at(n), guards.parse(f"{v} not in {cur}"))
@@ -241,7 +281,7 @@ def run(prog: Program, chk: Check):
         # candidate interval: v = offset + DYN_MOD_ID_START
         defs = [d for d in walk_local(am.node) if isinstance(d, ast.Assign) and any(path_of(t) == v for t in d.targets)]
         okv = len(defs) == 1 and isinstance(defs[0].value, ast.BinOp) and isinstance(defs[0].value.op, ast.Add) and \
-            {norm(guards.fold_consts(defs[0].value.left, res)), norm(guards.fold_consts(defs[0].value.right, res))} == {"self.next_dynamic_mod_id_offset", str(dstart)}
+            {norm(guards.subst(guards.fold_consts(defs[0].value.left, res), cur_sub)), norm(guards.subst(guards.fold_consts(defs[0].value.right, res), cur_sub))} == {CUR, str(dstart)}
         G.decide(okv, fkey(am, "candidate=offset+DYN_START"), where(am), "candidate = cursor + DYN_MOD_ID_START", "dynamic candidate is not cursor + DYN_MOD_ID_START")
     # cursor stays in [0, MAX_MODULES - DYN_MOD_ID_START)
     span = consts["MAX_MODULES"] - dstart
@@ -258,7 +298,7 @@ def run(prog: Program, chk: Check):
             if isinstance(n, ast.Assign):
                 v = n.value
                 # `cursor = (cursor + 1) % span` keeps the cursor in [0, span) by construction
-                modular = isinstance(v, ast.BinOp) and isinstance(v.op, ast.Mod) and norm(v.left) in ("self.next_dynamic_mod_id_offset + 1", "1 + self.next_dynamic_mod_id_offset") \
+                modular = isinstance(v, ast.BinOp) and isinstance(v.op, ast.Mod) and norm(guards.subst(v.left, cur_sub if f.key == am.key else {})) in ("self.next_dynamic_mod_id_offset + 1", "1 + self.next_dynamic_mod_id_offset") \
                     and f.key == am.key and _eval_local(prog, am, v.right) == span
                 if modular:
                     n_modular += 1
@@ -298,14 +338,42 @@ def run(prog: Program, chk: Check):
     idattr = mid_ret[0] if len(mid_ret) == 1 and mid_ret[0].startswith("self.") else "self._module_id"
     adopt = [n for n in hg.nodes if n.kind == "stmt" and isinstance(n.ast, ast.Assign) and any(path_of(t) == idattr for t in n.ast.targets)
              and ackv and norm(n.ast.value) == f"{ackv[0]}.header.dest_mod_id"]
-    okk = len(adopt) == 1 and not guards.any_path_implies(hgs.at(adopt[0]), guards.parse(f"{idattr} == 0"))
-    K.decide(okk, fkey(ch, "adopt-ack-id"), where(ch), "self._module_id = ack.header.dest_mod_id under `self._module_id == 0`",
-             "_connect_helper does not adopt the acknowledged id under the == 0 guard")
+    # facts about a local that mirrors the id attribute (`requested_id = ...; self._module_id = requested_id`) are facts about the attribute
+    apaths = [[(guards.subst(e_, msub), pol_) for e_, pol_ in p_] for p_ in hgs.at(adopt[0])] if len(adopt) == 1 else []
+    okk = len(adopt) == 1 and not guards.any_path_implies(apaths, guards.parse(f"{idattr} == 0"))
+    # ... and the id that was asked for is that attribute: what is tested is what was sent
+    sent_vals = [guards.subst(v_, msub) for v_ in field_stores(ch, v2[0]).get("mod_id", [])]
+    sent_is_attr = len(sent_vals) == 1 and norm(sent_vals[0]) in (idattr, "self.module_id")
+    K.decide(okk and sent_is_attr, fkey(ch, "adopt-ack-id"), where(ch), "self._module_id = ack.header.dest_mod_id under `self._module_id == 0`, the id that was sent",
+             "_connect_helper does not adopt the acknowledged id under the == 0 guard" if not okk else
+             f"the id sent in CONNECT_V2 (`{norm(sent_vals[0]) if sent_vals else None}`) is not the attribute tested before adopting the acknowledged id (`{idattr} == 0`): "
+             "a client that asked for 0 may keep a stale id")
     # a client created with id 0 asks for a dynamic id on EVERY connect: the reset dominates the CONNECT_V2 construction
-    resets = [n for n in hg.nodes if n.kind == "stmt" and isinstance(n.ast, ast.Assign) and any(path_of(t) == "self._module_id" for t in n.ast.targets)
-              and isinstance(n.ast.value, ast.Constant) and n.ast.value.value == 0]
+    def zero_under_dynamic(v):
+        if isinstance(v, ast.Constant) and v.value == 0:
+            return "const"
+        if isinstance(v, ast.IfExp):
+            t = norm(v.test)
+            if t == "self._dynamic_id" and isinstance(v.body, ast.Constant) and v.body.value == 0:
+                return "ifexp"
+            if t == "not self._dynamic_id" and isinstance(v.orelse, ast.Constant) and v.orelse.value == 0:
+                return "ifexp"
+        return None
+
+    resets = []
+    cond_free = set()
+    for n in hg.nodes:
+        if n.kind == "stmt" and isinstance(n.ast, ast.Assign) and any(path_of(t) == "self._module_id" for t in n.ast.targets):
+            v_ = n.ast.value
+            if isinstance(v_, ast.Name) and v_.id in mirrors and mirrors[v_.id][2] is n.ast:
+                v_ = mirrors[v_.id][1]
+            z = zero_under_dynamic(v_)
+            if z:
+                resets.append(n)
+                if z == "ifexp":
+                    cond_free.add(n.id)  # `x = 0 if self._dynamic_id else ...` resets exactly when dynamic: no enclosing test needed
     modid = [n for n in hg.nodes if n.kind == "stmt" and isinstance(n.ast, ast.Assign) and any(isinstance(t, ast.Attribute) and t.attr == "mod_id" and path_of(t.value) == v2[0] for t in n.ast.targets)]
-    okd = bool(resets) and bool(modid) and all(not guards.any_path_implies(hgs.at(r), guards.parse("self._dynamic_id")) for r in resets)
+    okd = bool(resets) and bool(modid) and all(r.id in cond_free or not guards.any_path_implies(hgs.at(r), guards.parse("self._dynamic_id")) for r in resets)
     if okd:
         # on the paths where the client is dynamic (false edge of the `self._dynamic_id` test excluded) the reset precedes the store
         okd = not flow.must_precede(hg, resets, modid, follow=lambda e: not (e.cond is not None and norm(e.cond) == "self._dynamic_id" and e.pol is False))
